@@ -18,6 +18,9 @@ func c12(c *Ctx) {
 	// primary-key and UNIQUE probes compare encoded keys: two TIMESTAMP values that are equal as stored (microseconds)
 	// must have equal keys, so every Timestamp value enters the engine truncated (analysis shared with C15.4)
 	c15TimestampNormalised(c, "C12.11/timestamp-key-equals-stored-value")
+	// CHECK constraints (and column defaults) live in the catalog as text: what is enforced after a catalog reload is
+	// the parsed-back text, so the text carries every field evaluation looks at
+	exprTextRule(c, "C12.13/persisted-check-text-is-the-declared-expression")
 	// ALTER TABLE ADD COLUMN does not rewrite the rows committed before it: they read the new column as NULL whatever
 	// its DEFAULT, so a column declared NOT NULL is never added to an existing table
 	if f := c.mustFn("C12.12/added-column-is-nullable", "embedded/sql.(*Table).newColumn"); f != nil {
